@@ -2,11 +2,11 @@ SPECIFICATION Spec
 CONSTANTS
   MaxOverloads = 2
   MaxParams = 2
-  ParamCats <- Cats2
+  ParamCats <- Cats8
   IntVals <- EdgeIntVals
   IntVals2 <- TinyIntVals
   ArgKinds <- PairArgKinds
-  Kinds = {"method", "static"}
+  Kinds = {"static"}
   ConstMethods = FALSE
   Fixed <- NoFix
 INVARIANT TiesHarmless
